@@ -138,6 +138,21 @@ class Lifter:
             r = self.call_hook(self, n)
             if r is not None:
                 return r
+        if isinstance(n.func, ast.Lambda) and not n.keywords and len(
+                n.args) == len(n.func.args.args):
+            from .absint import subst
+            m = {p.arg: a for p, a in zip(n.func.args.args, n.args)}
+            return self.lift(subst(n.func.body, m))
+        if isinstance(n.func, ast.Name) and self.module is not None and \
+                n.func.id in self.module.funcs and not n.keywords:
+            from .absint import simple_function_as_lambda, subst
+            lam = simple_function_as_lambda(
+                self.module.funcs[n.func.id].node) if isinstance(
+                    self.module.funcs[n.func.id].node,
+                    ast.FunctionDef) else None
+            if lam is not None and len(lam.args.args) == len(n.args):
+                m = {p.arg: a for p, a in zip(lam.args.args, n.args)}
+                return self.lift(subst(lam.body, m))
         fn = ast.unparse(n.func)
         if fn in ('fsum', 'math.fsum', 'sum') and len(n.args) == 1 and \
                 isinstance(n.args[0], (ast.List, ast.Tuple)):
